@@ -287,6 +287,26 @@ def l6_roundkeys(rep, cfg=cdb.HOST):
     return 1
 
 
+def l7_cannot_fail(prog, rep):
+    """The stream functions that return nothing cannot fail: no void function of crypto_aesctr.c (or of its shared part) calls
+    anything that can fail for lack of memory -- it would have no way to say so, and the one-shot function's caller would take an
+    untouched output buffer for ciphertext."""
+    from .. import own
+    n = 0
+    for up in (SW,):
+        u = prog.unit(up)
+        for f in u.funcs:
+            if not (f.file == up or f.file.endswith("crypto_aesctr_shared.c")):
+                continue
+            if (u.types.get(f.ret) or {}).get("kind") not in (None, "void") and f.ret != "void":
+                continue
+            n += 1
+            bad = [c for c in f.calls() if c.callee and own.alloc_fallible(prog, f, c.callee)]
+            rep.check(not bad, "L5-total", "%s returns nothing and calls nothing that can fail" % f.name, (bad[0].where if bad else f.loc),
+                      ("%s() can fail for lack of memory; this function has no way to report it" % bad[0].callee) if bad else "", function=f.name, construct="void-fallible")
+    return n
+
+
 def run(tier):
     rep = report.Report("C02", tier,
         "Decided: the counter block is written only by the agreed writers and has the layout nonce_be64 || blockindex_be64 in both the "
@@ -316,6 +336,8 @@ def run(tier):
         l1_l3(prog, rep)
         l2_l4(prog, rep)
         l5_total(prog, rep)
+    if l7_cannot_fail(prog, rep) < 3:
+        rep.defer_broken("L5: fewer than 3 void functions found in crypto_aesctr.c")
     if l6_roundkeys(rep) < 1:
         rep.defer_broken("L6: nothing decided about the AES-NI key object")
     # which implementation runs: the AES-NI stream code may be selected only when the key layer has validated and selected
